@@ -71,6 +71,29 @@ ALLOWED_ASSUMPTIONS = {
 
 DELEGATED_LEMMA_NAMES = set()
 
+# how far each assumed core-method specification is cross-checked against the real method by Kani (kani/std_specs.rs)
+_EUCLID = "assumed; Kani cross-check complete only for the divisors the crate uses (7, 12): symbolic divisors ran 20 min without a verdict"
+STD_SPEC_STATUS = {
+    "i64::rem_euclid": _EUCLID + " (harnesses std_spec_euclid_i64_by_7/_by_12)",
+    "i64::div_euclid": _EUCLID + " (same harnesses; not used by the unchanged tree)",
+    "i32::rem_euclid": _EUCLID.replace("(7, 12)", "(7)") + " (std_spec_euclid_i32_by_7; not used by the unchanged tree)",
+    "i32::div_euclid": _EUCLID.replace("(7, 12)", "(7)") + " (std_spec_euclid_i32_by_7; not used by the unchanged tree)",
+    "i128::div_euclid": "assumed; divisor 10^9 only: the lowest 10^9 values proved by Kani (std_spec_euclid_i128_by_1e9_low), the main region did not finish in 15 min (unchecked)",
+    "i128::rem_euclid": "assumed; divisor 10^9 only: the lowest 10^9 values proved by Kani (std_spec_euclid_i128_by_1e9_low), the main region did not finish in 15 min (unchecked)",
+    "i64::abs": "Kani cross-check complete (std_spec_abs, thorough tier)",
+    "i32::abs": "Kani cross-check complete (std_spec_abs; not used by the unchanged tree)",
+    "i32::saturating_abs": "Kani cross-check complete (std_spec_abs)",
+    "i64::saturating_abs": "Kani cross-check complete (std_spec_abs; not used by the unchanged tree)",
+    "i32::wrapping_abs": "Kani cross-check complete (std_spec_abs; not used by the unchanged tree)",
+    "i64::wrapping_abs": "Kani cross-check complete (std_spec_abs; not used by the unchanged tree)",
+    "i32::unsigned_abs": "Kani cross-check complete (std_spec_abs; not used by the unchanged tree)",
+    "i64::unsigned_abs": "Kani cross-check complete (std_spec_abs; not used by the unchanged tree)",
+    "i64::saturating_sub": "Kani cross-check complete (std_spec_saturating)",
+    "i32::saturating_sub": "Kani cross-check complete (std_spec_saturating)",
+    "i64::saturating_add": "Kani cross-check complete (std_spec_saturating; not used by the unchanged tree)",
+    "i32::saturating_add": "Kani cross-check complete (std_spec_saturating; not used by the unchanged tree)",
+}
+
 
 def check_assumptions(found, text):
     """returns (list of strings for evidence, list of violations of the allow-list)"""
@@ -82,9 +105,9 @@ def check_assumptions(found, text):
             name = m.group(1) if m else "?"
             if name not in ALLOWED_ASSUMPTIONS["assume_specification"]:
                 bad.append("%s %s (line %d)" % (what, name, ln))
-            out.append("assume_specification[%s] (cross-checked by Kani harness std_spec_*, thorough tier)" % name)
+            out.append("assume_specification[%s] - %s" % (name, STD_SPEC_STATUS.get(name, "assumed, no cross-check")))
         elif what == "external_body":
-            nxt = " ".join(lines[ln:ln + 3])
+            nxt = " ".join(lines[ln - 1:ln + 3])
             m = re.search(r"\bfn\s+(\w+)", nxt)
             name = m.group(1) if m else "?"
             if "/* delegated */" in code:
@@ -161,7 +184,13 @@ def verus_property(pid, prop, tier, seed, out, work):
         for alt_seed, rl2 in ((7919, rlimit), (104729, min(300, rlimit * 3))):
             if not failing:
                 break
-            r2 = verus_run.run_verus(gen, rlimit=rl2, fn_spans=fspans, seed=alt_seed)
+            # lemmas already discharged by the first run are not re-proved in a retry (same text, same statement)
+            done_lemmas = {it[0] for it in items if it[1] == "proof" and res.functions.get(it[0], {}).get("success") and it[0] not in failing}
+            items_retry = [((n, k, "#[verifier::external_body] /* discharged in the first run */\n" + t, f) if (n in done_lemmas and "external_body" not in t) else (n, k, t, f)) for (n, k, t, f) in items]
+            text_retry, spans_retry = ex.render(keep_fns=fns, lib_items=items_retry, delegated=set(delegated))
+            gen_retry = os.path.join(work, "tzrs_verif_%s_retry.rs" % pid)
+            open(gen_retry, "w").write(text_retry)
+            r2 = verus_run.run_verus(gen_retry, rlimit=rl2, fn_spans=[(a, b, n) for (a, b, n, k) in spans_retry], seed=alt_seed)
             if r2.compile_error:
                 break
             still = {f["function"] for f in r2.failures}
@@ -420,10 +449,14 @@ def main():
             verus_property(pid, prop, tier, seed, out, work)
         if prop.get("structural"):
             import structural
-            ok, facts, problems = getattr(structural, prop["structural"])(REPO)
-            out.evidence["coverage"]["structural_shape"] = dict(check=prop["structural"], facts=facts, problems=problems)
-            for pr in problems:
-                out.undecided.append("shape relied on by the meta-argument changed: " + pr)
+            names = prop["structural"] if isinstance(prop["structural"], list) else [prop["structural"]]
+            shapes = []
+            for nm in names:
+                ok, facts, problems = getattr(structural, nm)(REPO)
+                shapes.append(dict(check=nm, facts=facts, problems=problems))
+                for pr in problems:
+                    out.undecided.append("shape relied on by the meta-argument changed: " + pr)
+            out.evidence["coverage"]["structural_shape"] = shapes if len(shapes) > 1 else shapes[0]
         kani_run.run_for_property(REPO, work, pid, prop, tier, seed, out)
         code = report(out, prop, work)
     except extract.Undecided as e:
